@@ -78,12 +78,12 @@ _p('C06', 'other',
    ['ILU factor exactness', 'SPAI-1', 'Chebyshev polynomial'],
    'DESIGN.md sections 6 (C06), 8.4')
 
-_p('C07', 'proof',
-   'Function contracts (requires/ensures/assigns + inductive loop invariants with a ghost index) on the builtin backend primitives axpby, axpbypcz, vmul, copy, clear; spmv/residual (matrix_ops.hpp) where present: every obligation discharged for all vector lengths and, through the uninterpreted value model, for every value type; with a zero output coefficient the result term does not mention the old output (NaN/Inf clause).',
-   'Decides the builtin-backend clause only; block_crs, Eigen, hybrid backends and the reinterpret_cast scalar-as-block overloads are outside the C view. OpenMP pragmas are dropped (iterations verified sequentially; disjoint writes are part of the invariant).',
-   TECH_PROOF,
+_p('C07', 'other',
+   'MIXED: builtin backend proved without bound (all vector and matrix-vector primitives, every value type), block_crs backend bounded (see the two obligation counts in the evidence). Function contracts (requires/ensures/assigns + inductive loop invariants with a ghost index) on the builtin backend primitives axpby, axpbypcz, vmul, copy, clear; spmv/residual (matrix_ops.hpp) where present: every obligation discharged for all vector lengths and, through the uninterpreted value model, for every value type; with a zero output coefficient the result term does not mention the old output (NaN/Inf clause).',
+   'Decides the builtin backend (proved) and block_crs spmv / residual / constructor (bounded); Eigen, hybrid backends and the reinterpret_cast scalar-as-block overloads are outside the C view. OpenMP pragmas are dropped (iterations verified sequentially; disjoint writes are part of the invariant).',
+   TECH_BOUNDED,
    ['axpby/axpbypcz/vmul/copy/clear equal their defining formula at every index, every n, every value type', 'zero coefficient: old output not read'],
-   ['other backends', 'scalar-as-block overloads', 'conjugate-linearity of the complex inner product'],
+   ['Eigen / hybrid backends', 'scalar-as-block overloads'],
    'DESIGN.md section 6 (C07)')
 
 _p('C08', 'other',
